@@ -756,6 +756,7 @@ func New(
 	)
 
 	voteExtHandler := NewVoteExtHandler(app.Logger(), app.AppCodec(), app.OracleKeeper, app.BridgeKeeper)
+	verifRegisterVoteExtHandler(app, voteExtHandler)
 	app.BaseApp.SetExtendVoteHandler(voteExtHandler.ExtendVoteHandler)
 	app.BaseApp.SetVerifyVoteExtensionHandler(voteExtHandler.VerifyVoteExtensionHandler)
 
